@@ -484,7 +484,7 @@ def run(ctx):
 
     # an identifier inside a container is written by its own encoder arm, whatever its neighbours look like
     ctx.rule('C10.2-elements-written', 'every element of a list / tuple / map goes through the encoder on every way round the element loop (rule C01.2-elements-written re-run): == on identifiers ignores the '
-             'node-local form, so a neighbour\'s bytes copied for an "equal" element put the wrong form (or the wrong hash) on the wire', floor=8)
+             'node-local form, so a neighbour\'s bytes copied for an "equal" element put the wrong form (or the wrong hash) on the wire', floor=1)
     from . import c01 as _c01_10
     if type(ctx).__name__ != 'SubCtx':
         _c01_10.run(_Sub10(ctx, 'C10.2-elements-written', 'c01', allow=('C01.2-elements-written',)))
